@@ -1,12 +1,13 @@
 import AL.Model.Glob
 import AL.Lemmas.GlobSpace
 import AL.Lemmas.GlobGood
+import AL.Lemmas.GlobSpecFacts
 /-
   C17 — filter patterns are validated exactly by the documented glob syntax.
   Property theorems only; helper lemmas live in AL/Lemmas.
 -/
 namespace AL.C17
-open AL AL.Glob
+open AL AL.Glob AL.Spec
 
 /-- Termination ("validation terminates for every string") is carried by the definitions themselves:
 `classLoop` and `loop` are accepted by Lean's termination checker with the measure
@@ -109,5 +110,86 @@ character is being read as look-ahead. `a<NUL>` is reported at column 1. -/
 theorem scan_col_counterexample :
     validate false (ascii [97, 0]) = [⟨1, .scan .nul⟩] ∧ validate false (ascii [0, 97]) = [⟨0, .scan .nul⟩] := by
   decide +kernel
+
+/-! ### 4. A filter is reported iff it violates the documented syntax
+
+`AL.Spec.ValidGlob` is the documented syntax; `AL.Spec.ValidGlobLoose` differs only in that the members
+of a character class `[...]` are unrestricted. `NoBOM src`: the pattern does not start with U+FEFF
+(which Go's scanner drops silently). -/
+
+/-- The ideal statement. It is false, see `validate_iff_counterexample`. -/
+def validate_iff_statement : Prop :=
+  ∀ (isRef : Bool) (src : List Sym), validate isRef src = [] ↔ ValidGlob isRef src
+
+/-- What is true: the validator accepts exactly the documented syntax *with unchecked class members*
+(for patterns not starting with a BOM). Missing w.r.t. `validate_iff_statement`: line breaks and, for
+refs, space TAB `~ ^ :` inside `[...]` are not reported; a leading BOM is ignored. -/
+theorem validate_iff_partial (isRef : Bool) (src : List Sym) (hb : NoBOM src) :
+    validate isRef src = [] ↔ ValidGlobLoose isRef src :=
+  ⟨validate_sound isRef src hb, validate_complete isRef src hb⟩
+
+theorem validateRef_iff_partial (src : List Sym) (hb : NoBOM src) :
+    validateRef src = [] ↔ ValidGlobLoose true src :=
+  validate_iff_partial true src hb
+
+theorem validatePath_iff_partial (src : List Sym) (hb : NoBOM src) :
+    validatePath src = [] ↔
+      (src.head?.map (·.r) ≠ some 32 ∧ src.getLast?.map (·.r) ≠ some 32 ∧ ValidGlobLoose false src) := by
+  unfold validatePath
+  simp only []
+  split
+  · rename_i h; simp [h]
+  · rename_i h
+    split
+    · rename_i h2; simp [h2]
+    · rename_i h2
+      rw [validate_iff_partial false src hb]
+      exact ⟨fun hv => ⟨h, h2, hv⟩, fun hv => hv.2.2⟩
+
+/-- One direction holds for the documented syntax itself: nothing valid is ever reported. -/
+theorem validate_complete_strict (isRef : Bool) (src : List Sym) (hb : NoBOM src) (h : ValidGlob isRef src) :
+    validate isRef src = [] :=
+  validate_complete isRef src hb (validGlob_loosen h)
+
+/-- The documented syntax has no line break anywhere and, for refs, none of space TAB `~ ^ :`. -/
+theorem valid_no_linebreak (isRef : Bool) (src : List Sym) (h : ValidGlob isRef src) :
+    ∀ c ∈ src, ¬ LineBreak c.r ∧ (isRef = true → ¬ RefInvalid c.r) :=
+  validGlob_plain h
+
+/-- Non-vacuous: `v[0-9]+.*` is valid (loose) as a ref and does not start with a BOM. -/
+example : NoBOM (ascii [118, 91, 48, 45, 57, 93, 43, 46, 42]) ∧
+    ValidGlobLoose true (ascii [118, 91, 48, 45, 57, 93, 43, 46, 42]) :=
+  ⟨by decide, (validate_iff_partial true _ (by decide)).1 (by decide +kernel)⟩
+
+/-- `[a<LF>b]` is accepted although it contains a line break. -/
+theorem validate_iff_counterexample : ¬ validate_iff_statement := by
+  intro h
+  have hv : ValidGlob false (ascii [91, 97, 10, 98, 93]) := (h false _).1 (by decide +kernel)
+  exact (valid_no_linebreak false _ hv ⟨10, 1, false⟩ (by decide)).1 (Or.inr rfl)
+
+/-- `[a b]` is accepted as a ref filter although a ref name cannot contain a space. -/
+theorem validate_iff_counterexample_ref :
+    ∃ src, NoBOM src ∧ validateRef src = [] ∧ ¬ ValidGlob true src := by
+  refine ⟨ascii [91, 97, 32, 98, 93], by decide, by decide +kernel, fun hv => ?_⟩
+  exact (valid_no_linebreak true _ hv ⟨32, 1, false⟩ (by decide)).2 rfl (Or.inl rfl)
+
+/-- The BOM hypothesis is needed: `<BOM>?` is valid by the documented syntax (a character followed by
+`?`), but the scanner drops the BOM, so `?` is reported as having no predecessor. -/
+theorem validate_iff_counterexample_bom :
+    ∃ src, ValidGlobLoose false src ∧ validate false src ≠ [] := by
+  refine ⟨[⟨0xFEFF, 3, false⟩, ⟨63, 1, false⟩], ⟨?_, ?_, ?_, by simp⟩, by decide +kernel⟩
+  · intro c hc
+    simp only [List.mem_cons, List.not_mem_nil, or_false] at hc
+    rcases hc with hc | hc <;> subst hc <;> exact ⟨rfl, by decide⟩
+  · simp [body]
+  · have hb : body [⟨0xFEFF, 3, false⟩, ⟨63, 1, false⟩] = [⟨0xFEFF, 3, false⟩, ⟨63, 1, false⟩] := by simp [body]
+    rw [hb]
+    refine .ord _ _ _ ?_ (.opt _ _ (Or.inl rfl) (.nil _))
+    unfold Ordinary LineBreak RefInvalid
+    simp
+
+/-- A pattern consisting of a BOM only is accepted without any report, although nothing is left of it. -/
+theorem bom_only_accepted (isRef : Bool) : validate isRef [⟨0xFEFF, 3, false⟩] = [] := by
+  cases isRef <;> decide +kernel
 
 end AL.C17
